@@ -441,3 +441,62 @@ def pair_c20(job):
         return {"pid": pid, "prop": "C20", "a": a, "b": b, "scenario": sc, "seed": seed, "exact": k}, None
     except Exception:
         return None, traceback.format_exc()
+
+
+# ------------------------------------------------------------------ C19 on floating-point inputs
+
+def _empties(recs, node):
+    """instants (micro-units) at which `node` becomes empty, from its service records.  Dates are quantised first
+    and an arrival at the quantised instant of a departure counts as earlier, so that rounding noise of a few ulps
+    cannot create or remove an emptying instant"""
+    ev = []
+    for r in recs:
+        if r.node == node and r.record_type == "service":
+            ev.append((int(round(float(r.arrival_date) * 10 ** 6)), 0))
+            ev.append((int(round(float(r.exit_date) * 10 ** 6)), 1))
+    ev.sort()
+    pop, out = 0, []
+    for j, (t, d) in enumerate(ev):
+        pop += 1 if d == 0 else -1
+        if pop == 0 and not (j + 1 < len(ev) and ev[j + 1][0] - t <= 2):
+            out.append(t)
+    return out
+
+
+def pair_c19(job):
+    """an unlimited processor-sharing node (threshold 1) and a FIFO single-server node fed with the same arrival
+    instants and the same requirements, on decimal (not binary-exact) values with ties and batches: both empty at
+    the same instants and neither keeps a customer once all work is done"""
+    pid, seed = job
+    try:
+        ciw = _ciw()
+        rng = random.Random("c19/%d" % seed)
+        m = rng.randint(4, 40)
+        grid = rng.choice([0.1, 0.1, 0.01, 0.7, 1.3])
+        ia, req = [], []
+        for _ in range(m):
+            ia.append(0.0 if rng.random() < 0.3 else round(rng.randint(1, 30) * grid, 6))
+            req.append(round(rng.randint(1, 25) * grid, 6) if rng.random() < 0.7 else round(rng.uniform(0.05, 3.0), 3))
+        if rng.random() < 0.4:
+            req = [req[0]] * m                      # identical requirements: exact ties inside busy periods
+        if ia[0] == 0.0:
+            ia[0] = grid
+        T = sum(ia) + sum(req) + 50.0
+        N = ciw.create_network(
+            arrival_distributions=[ciw.dists.Sequential(ia + [10.0 ** 9]), ciw.dists.Sequential(ia + [10.0 ** 9])],
+            service_distributions=[ciw.dists.Sequential(list(req)), ciw.dists.Sequential(list(req))],
+            number_of_servers=[float("inf"), 1],
+            routing=[[0.0, 0.0], [0.0, 0.0]])
+        ciw.seed(seed)
+        Q = ciw.Simulation(N, node_class=[ciw.PSNode, ciw.Node])
+        Q.simulate_until_max_time(T)
+        recs = Q.get_all_records()
+        left = [len(Q.nodes[1].all_individuals), len(Q.nodes[2].all_individuals)]
+        a = {"recs": [], "clock": "", "hist": [], "busy": [], "util": [], "alldec": True, "order": [],
+             "nums": [_empties(recs, 1)], "left": left[0]}
+        b = {"recs": [], "clock": "", "hist": [], "busy": [], "util": [], "alldec": True, "order": [],
+             "nums": [_empties(recs, 2)], "left": left[1]}
+        return {"pid": pid, "prop": "C19", "a": a, "b": b, "seed": seed,
+                "scenario": {"ia": ia, "req": req, "T": T}}, None
+    except Exception:
+        return None, traceback.format_exc()
